@@ -170,6 +170,9 @@ def run():
         extra(facts)
 
     render(facts)
+    import translate
+
+    facts["translated"] = translate.run()
     return facts
 
 
